@@ -1,5 +1,6 @@
 import Proofs.MetaState
 import Proofs.MetaDelete
+import Gen.LinkDecisions
 
 /-!
   C02 — Links stay symmetric, bounded and atomic through any operation history.
@@ -136,6 +137,32 @@ theorem shared_referential_reads (sch : Schema) (at_ : Attrs) (s : State) (f : N
         match ((s.links i1).tgt x).head? with
         | some other => getAttr sch at_ s f other pk1
         | none => none := getAttr_shared sch at_ s f x name pk1 pk2 i1 i2 h
+
+/-- tie to the source: the decision structure of `Link.connect` and `Link.disconnect` as TRANSLATED from
+    xtuml/meta.py on this run (lean/Gen/LinkDecisions.lean: the chain of guarded early returns) is exactly
+    what the model's `connect` / `disconnect` do, for every link map and every pair:
+    early `return True` ⇒ unchanged map, `return False` ⇒ refused, fall-through ⇒ the mutation -/
+theorem link_decisions_as_in_source (many : Bool) (m : Inst → List Inst) (x y : Inst) :
+    (connect many m x y =
+      match Pyx.Gen.LinkDecisions.connect (decide (y ∈ m x)) (decide (m x ≠ [])) many true with
+      | .retTrue => some m
+      | .retFalse => none
+      | .mutate => some (upd m x (m x ++ [y]))) ∧
+    (disconnect m x y =
+      match Pyx.Gen.LinkDecisions.disconnect (decide (y ∈ m x)) (decide (m x ≠ [])) with
+      | .retTrue => some m
+      | .retFalse => none
+      | .mutate => some (upd m x ((m x).erase y))) := by
+  constructor
+  · unfold connect Pyx.Gen.LinkDecisions.connect
+    by_cases h1 : y ∈ m x
+    · simp [h1]
+    · by_cases h2 : m x = [] <;> cases many <;> simp [h1, h2]
+  · unfold disconnect Pyx.Gen.LinkDecisions.disconnect
+    by_cases h1 : y ∈ m x
+    · have h2 : m x ≠ [] := fun h => by rw [h] at h1; simp at h1
+      simp [h1, h2]
+    · by_cases h2 : m x = [] <;> simp [h1, h2]
 
 /-! non-vacuity: a concrete history over a 1:1 schema reaches a state with one link; the rejected relate
     of a second partner returns RelateException and leaves that state unchanged -/
